@@ -1,6 +1,7 @@
 package vrt
 
 import (
+	"fmt"
 	"reflect"
 	"sort"
 )
@@ -28,7 +29,10 @@ func sortKeys[K comparable](ks []K) {
 	case reflect.Int, reflect.Int8, reflect.Int16, reflect.Int32, reflect.Int64:
 		sort.Slice(ks, func(i, j int) bool { return reflect.ValueOf(ks[i]).Int() < reflect.ValueOf(ks[j]).Int() })
 	default:
-		panic(HarnessError{"vrt.Keys: unsupported key kind " + rv.Kind().String()})
+		// structs, arrays, bools, floats, interfaces, pointers: a deterministic order by rendering. (Pointers
+		// render as addresses, which differ between runs - kvass has no pointer-keyed map; a replay that
+		// diverges because of one is reported as harness nondeterminism, never as a verdict.)
+		sort.Slice(ks, func(i, j int) bool { return fmt.Sprintf("%#v", ks[i]) < fmt.Sprintf("%#v", ks[j]) })
 	}
 }
 
